@@ -150,7 +150,8 @@ class C20(Prop):
         except FileNotFoundError:
             pass
         if before != after:
-            rc, out, _ = leanside.lake_build(self.lean_modules)
+            with gobuild.build_lock():
+                rc, out, _ = leanside.lake_build(self.lean_modules)
             if rc != 0:
                 errs = [l for l in out.split("\n") if "error" in l][:6]
                 broken.append("lake build of Props/C20 on the regenerated table failed: " + " | ".join(errs))
